@@ -13,7 +13,7 @@ pub struct Lex {
     pub comment: u8,  // 0 none, 1 trailing comments, 2 full-line comments between statements
     pub crlf: bool,
     pub preamble: u8, // 0 none, 1 one line, 2 two lines (one containing '#')
-    pub cont: bool,   // line continuations in number lists
+    pub cont: bool,   // line continuations in number lists and inside string literals
 }
 
 impl Lex {
@@ -71,6 +71,16 @@ impl Lex {
             items.join(",")
         }
     }
+    /// a string literal; with `cont`, strings of at least 4 characters are continued on the next line
+    /// with the long-line marker (backslash + line break) in their middle
+    fn string(&self, v: &str) -> String {
+        if self.cont && v.len() >= 4 && v.is_ascii() {
+            let mid = v.len() / 2;
+            format!("\"{}\\{}{}\"", &v[..mid], self.nl(), &v[mid..])
+        } else {
+            format!("\"{}\"", v)
+        }
+    }
     fn header(&self) -> String {
         let mut s = String::new();
         if self.preamble >= 1 {
@@ -113,19 +123,19 @@ pub enum Stmt {
 impl Stmt {
     pub fn render(&self, l: &Lex) -> String {
         match self {
-            Stmt::Str(k, v) => format!("{}{}\"{}\"", l.kw(k), l.eq(), v),
+            Stmt::Str(k, v) => format!("{}{}{}", l.kw(k), l.eq(), l.string(v)),
             Stmt::Num(k, v, hex) => format!("{}{}{}", l.kw(k), l.eq(), if *hex { format!("0x{:X}", v) } else { format!("{}", v) }),
             Stmt::Bool(k, v) => format!("{}{}{}", l.kw(k), l.eq(), *v as u8),
             Stmt::PrmText(id, items) => {
                 let mut s = format!("{}{}{}{}", l.kw("PrmText"), l.eq(), id, l.eol());
                 for (v, t) in items {
-                    s.push_str(&format!("{}({}){}\"{}\"{}", l.kw("Text"), v, l.eq(), t, l.eol()));
+                    s.push_str(&format!("{}({}){}{}{}", l.kw("Text"), v, l.eq(), l.string(t), l.eol()));
                 }
                 s.push_str(&l.kw("EndPrmText"));
                 s
             }
             Stmt::ExtPrm { id, name, ty, default, constraint, text_ref, changeable, visible } => {
-                let mut s = format!("{}{}{} \"{}\"{}", l.kw("ExtUserPrmData"), l.eq(), id, name, l.eol());
+                let mut s = format!("{}{}{} {}{}", l.kw("ExtUserPrmData"), l.eq(), id, l.string(name), l.eol());
                 let c = match constraint {
                     Constraint::None => String::new(),
                     Constraint::Range(a, b) => format!(" {}-{}", a, b),
@@ -149,7 +159,7 @@ impl Stmt {
             Stmt::LegacyLen(n) => format!("{}{}{}", l.kw("User_Prm_Data_Len"), l.eq(), n),
             Stmt::LegacyData(b) => format!("{}{}{}", l.kw("User_Prm_Data"), l.eq(), l.list(b)),
             Stmt::Module { name, config, reference, prm_len, refs, consts, info } => {
-                let mut s = format!("{}{}\"{}\" {}{}", l.kw("Module"), l.eq(), name, l.list(config), l.eol());
+                let mut s = format!("{}{}{} {}{}", l.kw("Module"), l.eq(), l.string(name), l.list(config), l.eol());
                 if let Some(r) = reference {
                     s.push_str(&format!("{}{}", r, l.eol()));
                 }
@@ -163,7 +173,7 @@ impl Stmt {
                     s.push_str(&format!("{}({}){}{}{}", l.kw("Ext_User_Prm_Data_Ref"), o, l.eq(), id, l.eol()));
                 }
                 if let Some(i) = info {
-                    s.push_str(&format!("{}{}\"{}\"{}", l.kw("Info_Text"), l.eq(), i, l.eol()));
+                    s.push_str(&format!("{}{}{}{}", l.kw("Info_Text"), l.eq(), l.string(i), l.eol()));
                 }
                 s.push_str(&l.kw("EndModule"));
                 s
@@ -175,18 +185,18 @@ impl Stmt {
                         Ok((a, b)) => format!("{}-{}", a, b),
                         Err(set) => set.iter().map(|x| x.to_string()).collect::<Vec<_>>().join(","),
                     };
-                    s.push_str(&format!("{}({}){}\"{}\" {} {}{}", l.kw("Slot"), n, l.eq(), name, def, v, l.eol()));
+                    s.push_str(&format!("{}({}){}{} {} {}{}", l.kw("Slot"), n, l.eq(), l.string(name), def, v, l.eol()));
                 }
                 s.push_str(&l.kw("EndSlotDefinition"));
                 s
             }
-            Stmt::DiagBit(b, t) => format!("{}({}){}\"{}\"", l.kw("Unit_Diag_Bit"), b, l.eq(), t),
-            Stmt::DiagBitHelp(b, t) => format!("{}({}){}\"{}\"", l.kw("Unit_Diag_Bit_Help"), b, l.eq(), t),
-            Stmt::DiagNotBit(b, t) => format!("{}({}){}\"{}\"", l.kw("Unit_Diag_Not_Bit"), b, l.eq(), t),
+            Stmt::DiagBit(b, t) => format!("{}({}){}{}", l.kw("Unit_Diag_Bit"), b, l.eq(), l.string(t)),
+            Stmt::DiagBitHelp(b, t) => format!("{}({}){}{}", l.kw("Unit_Diag_Bit_Help"), b, l.eq(), l.string(t)),
+            Stmt::DiagNotBit(b, t) => format!("{}({}){}{}", l.kw("Unit_Diag_Not_Bit"), b, l.eq(), l.string(t)),
             Stmt::DiagArea(a, b, vals) => {
                 let mut s = format!("{}{}{}-{}{}", l.kw("Unit_Diag_Area"), l.eq(), a, b, l.eol());
                 for (v, t) in vals {
-                    s.push_str(&format!("{}({}){}\"{}\"{}", l.kw("Value"), v, l.eq(), t, l.eol()));
+                    s.push_str(&format!("{}({}){}{}{}", l.kw("Value"), v, l.eq(), l.string(t), l.eol()));
                 }
                 s.push_str(&l.kw("Unit_Diag_Area_End"));
                 s
